@@ -139,6 +139,7 @@ class DimArray(AbstractDimArray, OpMixin, GetSetDelAttrMixin):
            [1, 2, 3]])
     """
     _order = None  # set a general ordering relationship for dimensions
+    __array_priority__ = 100  # numpy scalars and arrays as left operands defer to the reflected operators (axes are kept)
 
     #
     # NOW MAIN BODY OF THE CLASS
